@@ -151,6 +151,9 @@ func (fr *Frame) callFunction0(st *State, fn *ssa.Function, args []Val, binds []
 		fr.oblige(st, "termination", "recursive-call-without-variant", False, nil, pos)
 	}
 	fr.callHooks(st, fnHookNames(fn), args, pos)
+	if fc != nil && fc.Spawns != "" {
+		fr.spawnViaCall(st, fc, args, pos)
+	}
 	if fc != nil && !fc.Inline {
 		fc.Used = true
 		return fr.applyContract(st, fc, sig, args, pos, shortKey(key))
@@ -958,6 +961,9 @@ func (fr *Frame) ghostCallUpdates(st *State, names string, args []Val, res []Val
 		}
 		v := fr.evalExpr(sc, gu.E)
 		if old, ok := st.ghost[gu.Name]; ok {
+			if isNilConst(v) && old.K == KNormal && old.T != nil {
+				v = fr.en.zero(old.T)
+			}
 			v = fr.coerce(v, old)
 			if m, ok := iteVal(True, v, old); ok {
 				v = m
@@ -1062,6 +1068,47 @@ func (fr *Frame) spawnPre(st *State, x *ssa.Go, gargs []Val) {
 	if fn == nil {
 		return
 	}
+	fr.spawnPreFn(st, fn, binds, gargs, x.Pos())
+}
+
+// spawnViaCall: a call of a function whose contract says "spawns <param>" (a goroutine pool's Go) with a
+// closure for that parameter is a spawn of the closure: "go" hooks fire and the closure's preconditions are
+// obligations here.
+func (fr *Frame) spawnViaCall(st *State, fc *FuncContract, args []Val, pos token.Pos) {
+	idx := -1
+	for i, p := range fc.Params {
+		if p == fc.Spawns {
+			idx = i
+		}
+	}
+	if idx < 0 || idx >= len(args) {
+		panic(contractErr("spawns: no parameter " + fc.Spawns + " in " + fc.Key))
+	}
+	fv := args[idx]
+	fr.top.goCaps = nil
+	if fv.K == KClosure {
+		for _, b := range fv.Binds {
+			if b.K == KCellPtr {
+				if cv, ok := st.cells[b.Cell]; ok {
+					fr.top.goCaps = append(fr.top.goCaps, fr.refComps(cv)...)
+				}
+			} else {
+				fr.top.goCaps = append(fr.top.goCaps, fr.refComps(b)...)
+			}
+		}
+	}
+	fr.callHooks(st, "go", nil, pos)
+	if fv.K != KClosure {
+		fr.oblige(st, "spawn-pre", shortKey(fc.Key)+".known-function", False, &Clause{Kind: "spawn-pre", Text: "the function handed to " + shortKey(fc.Key) + " is a closure or function whose contract can be checked here"}, pos)
+		return
+	}
+	if fr.parent == nil {
+		fr.spawnPreFn(st, fv.Fn, fv.Binds, nil, pos)
+	}
+	fr.top.note("spawn of " + fv.Fn.Name() + " through " + shortKey(fc.Key) + " in " + fr.fn.Name() + ": goroutine body not executed in the spawner; concurrent effects not modelled")
+}
+
+func (fr *Frame) spawnPreFn(st *State, fn *ssa.Function, binds []Val, gargs []Val, pos token.Pos) {
 	fc := fr.en.CS.Funcs[FuncKey(fn)]
 	if fc == nil || len(fc.Requires) == 0 {
 		return
@@ -1107,6 +1154,6 @@ func (fr *Frame) spawnPre(st *State, x *ssa.Go, gargs []Val) {
 			}()
 			return fr.evalBool(sc, r.E)
 		}()
-		fr.oblige(st, "spawn-pre", shortKey(fc.Key)+"."+clauseName(r, i), g, r, x.Pos())
+		fr.oblige(st, "spawn-pre", shortKey(fc.Key)+"."+clauseName(r, i), g, r, pos)
 	}
 }
